@@ -82,7 +82,9 @@ def tykey(t):
         return "Ref[" + tykey(t["e"]) + "]"
     if k == "param":
         return "?" + t["n"]
-    if k in ("array", "fn", "dyn"):
+    if k == "dyn":
+        return "dyn " + t["tr"]
+    if k in ("array", "fn"):
         return "?"
     return k
 
